@@ -310,6 +310,17 @@ def x_eq(ctx, case):
     ctx.check((a == b) == want, "eq.agrees", lambda: {"a==b": a == b, "want": want})
     ctx.check((b == a) == want, "eq.agrees", lambda: {"b==a": b == a, "want": want})
     ctx.check(a == a, "eq.reflexive")
+    # equality is about the bytes the contents yield NOW: a lazy content whose source has moved on since it
+    # was last compared (or shown) is compared by what it yields now
+    source = [bytes.fromhex(case["a"]["hex"])]
+    lazy = Content(ContentType(case["a"]["type"], case["a"]["sub"], dict(case["a"]["params"])), lambda: list(source))
+    first = (lazy == a, repr(lazy))
+    source.append(b"-appended-later")
+    now = b"".join(lazy.iter_bytes())
+    fixed = Content(ContentType(case["a"]["type"], case["a"]["sub"], dict(case["a"]["params"])), lambda: [now])
+    ctx.check(first[0] is True and lazy == fixed and not (lazy == a) and fixed == lazy, "eq.agrees",
+              lambda: {"lazy content": "compared equal, then its source grew", "equal to its old bytes still": lazy == a,
+                       "equal to its current bytes": lazy == fixed})
     return True
 
 
